@@ -33,6 +33,8 @@ ASSUMPTIONS = [
     'a liveness obligation (sender resumed) is decided at quiescence of a single-threaded system: every queue empty, no bytes in the wire, nothing changed during 4 consecutive rounds',
     'the error flag of a failed remote call is accepted in either place the protocol can put it (event.errors or value.errors)',
     'the remote canary after a hostile packet (same connection) is counted, not asserted: the statement protects the local loop, not the hostile peer\'s connection',
+    'during the hostile phase the harness is the peer: what the victim writes is read and ignored (two real Protocols would otherwise bounce an event named send for ever)',
+    'a failing case is attributed to known findings only through neutralised twins; when several known triggers are present the smallest set of triggers whose neutralisation makes the case pass is used',
 ]
 REQUIRED = ['calls_executed_remotely', 'results_received', 'cut_inside_packet', 'cut_inside_delimiter', 'byte_at_a_time_cases',
             'packet_over_4k', 'inflight_ge2', 'server_to_client_calls', 'client_to_server_calls', 'send_firewall_rejections',
@@ -1319,8 +1321,10 @@ FIELDS_VALUE = ['id', 'errors', 'value', 'meta']
 
 
 def marker(rng, k):
-    c = rng.randrange(7)
-    return ['M!' + k, ['M!', k], {'M!': k}, 424242, True, 1, ['M!', [k]]][c]
+    # markers are values no well-formed path can produce (a boolean or small int could also come from the packet's own
+    # top-level success/failure/notify fields, which the peer legitimately controls)
+    c = rng.randrange(5)
+    return ['M!' + k, ['M!', k], {'M!': k}, 424242, ['M!', [k]]][c]
 
 
 def J(obj, *classes_, **kw):
@@ -1477,7 +1481,6 @@ def corpus():
     cs.append(calls_case([call('c0', 'hello', [1], style='call'), call('s0', 'ping', [2], style='direct')], {'hello': 'ret', 'ping': 'gen'}))
     # cut classes: inside the request, inside its delimiter, byte at a time, inside the answer, fixed 4096 reads of a big packet
     cs.append(calls_case([hello], {'hello': 'ret'}, {'c2s': [10, BIG]}))
-    n = len(json.dumps({'x': 1}))  # noqa: F841
     cs.append(calls_case([hello], {'hello': 'ret'}, {'s2c': [10, BIG]}))
     cs.append(calls_case([hello], {'hello': 'ret'}, {'c2s': [1], 's2c': [1]}))
     cs.append(calls_case([hello, call('c0', 'ping', [2])], {'hello': 'ret', 'ping': 'echo'}, {'c2s': [7], 's2c': [5]}, burst=1))
@@ -1560,7 +1563,7 @@ def corpus():
     V = []
     for f in FIELDS_VALUE:
         V.append([J(dict({'id': 0, 'errors': False, 'value': 'v', 'meta': {}}, **{f: v}), 'wrong_type') for v in (None, 'x', [[1]], {'a': 1}, 5)])
-    V.append([J({'id': 0, 'errors': False, 'value': 1, 'meta': {'cause': 1, 'effects': 2, 'success_channels': ['M!'], 'stopped': True}}, 'meta')])
+    V.append([J({'id': 0, 'errors': False, 'value': 1, 'meta': {'cause': 1, 'effects': 2, 'success_channels': ['M!'], 'stopped': 'M!stopped'}}, 'meta')])
     V.append([J({'id': [0], 'errors': False, 'value': 1, 'meta': {}}, 'value_id'), J({'id': {'a': 1}, 'errors': False, 'value': 1, 'meta': {}}, 'value_id')])
     V.append([J({'id': 0, 'errors': False, 'value': 1, 'meta': [['cause', 1]]}, 'meta')])
     for pk in V:
